@@ -70,8 +70,8 @@ func zzH_C11m() {
 // every mode (C12): (i) the buffer is not back in the pool while the body codec is still decoding
 // from it — the hook takes a buffer of the same size class from the pool in the middle of the
 // decode, as any concurrent call on the connection may, and scribbles on it; (ii) the buffer goes
-// back to the pool exactly once — two messages queued next, before either is read, must not share
-// a backing array. Both reader modes are driven (vChoose "nocopy").
+// back to the pool exactly once — four messages queued next, before any is read, must not share
+// a backing array and must come out in the order queued. Both reader modes are driven (vChoose "nocopy").
 func zzH_C11n() {
 	vSetPoolReuse(true)
 	// 1..3, then a message that fills its pooled buffer exactly (len == cap, smallest size class 8)
@@ -83,11 +83,13 @@ func zzH_C11n() {
 	intact := true
 	st.unmarshal = func(data []byte, v interface{}) error {
 		other := GetBuffer(n) // concurrent traffic of the same size class during the decode
-		for i := range other {
-			other[i] = ^want[i]
-		}
-		if !vEqBytes(data, want) {
-			intact = false
+		if want != nil {
+			for i := range other {
+				other[i] = ^want[i]
+			}
+			if !vEqBytes(data, want) {
+				intact = false
+			}
 		}
 		*v.(*[]byte) = append([]byte(nil), data...) // a copying body codec
 		PutBuffer(other)
@@ -108,15 +110,19 @@ func zzH_C11n() {
 	vAssert(st.ReadMessage(nil, &msg1) == nil, "read-ok")
 	vAssert(intact, "buffer-not-pooled-while-decoding")
 	vAssert(vEqBytes(msg1, c1), "message-as-sent")
-	// two messages in flight at once after the first buffer was released
+	// four messages in flight at once after the first buffer was released: none shares a buffer with
+	// another, and they are read in the order queued (C09) — a burst longer than two is what a
+	// swap-remove or ring-index slip in the queue needs in order to show
 	c2 := push("m2", n)
 	c3 := push("m3", n)
-	var msg2, msg3 []byte
-	want = c2
+	c4 := push("m4", n)
+	c5 := push("m5", n)
+	var msg2, msg3, msg4, msg5 []byte
+	want = nil
 	st.ReadMessage(nil, &msg2)
-	want = c3
 	st.ReadMessage(nil, &msg3)
-	vAssert(intact, "buffer-not-pooled-while-decoding")
-	vAssert(vEqBytes(msg2, c2) && vEqBytes(msg3, c3), "queued-messages-do-not-share-a-buffer")
+	st.ReadMessage(nil, &msg4)
+	st.ReadMessage(nil, &msg5)
+	vAssert(vEqBytes(msg2, c2) && vEqBytes(msg3, c3) && vEqBytes(msg4, c4) && vEqBytes(msg5, c5), "queued-messages-in-order-unshared")
 	vReach("end")
 }
